@@ -238,11 +238,26 @@ fn main() {
     }
     let nw = n_threads();
     // probes of the confirmed crashes whose fix is pending (see fecorpus::GATES)
-    let gate_inputs: Vec<String> = GATES.iter().map(|(id, t)| format!("-\x1fgate:{id}\x1f{t}")).collect();
+    let gate_inputs: Vec<String> = GATES.iter().map(|(id, _, t)| format!("-\x1fgate:{id}\x1f{t}")).collect();
     let gate_res = run_workers(&["--worker"], &gate_inputs, GATES.len(), std::time::Duration::from_secs(20));
     let mut gated_sites: BTreeMap<String, String> = BTreeMap::new();
     let mut gate_aborts: Option<&str> = None;
-    for ((id, _), r) in GATES.iter().zip(gate_res) {
+    for ((id, pending, text), r) in GATES.iter().zip(gate_res) {
+        if !pending {
+            // the fix has landed: a regression input
+            let crashed = match &r {
+                Res::Died(why) => Some(format!("takes the process down ({why})")),
+                Res::Ok(s) => {
+                    let o = decode(s);
+                    if o.crashes.is_empty() { None } else { Some(format!("panics ({:?})", o.crashes[0])) }
+                }
+            };
+            match crashed {
+                Some(how) => ctx.spec_fail(format!("regression of {id} (fixed earlier): the front end {how} on {:?}", text)),
+                None => ctx.count("regression-probe:pass"),
+            }
+            continue;
+        }
         match r {
             Res::Died(why) => {
                 gate_aborts = Some(id);
